@@ -147,8 +147,10 @@ HEADERS = [
     ('zip3', 'for {X}, {Y}, {I} in zip(xs, ys, xs):', [], 'XYI', ['xs', 'ys'], 'zip'),
     ('zip1', 'for {P} in zip(xs):', ['{X} = {P}[0]'], 'X', ['xs'], 'zip'),
     ('comp', 'for {X} in [{V} + 1 for {V} in xs]:', [], 'X', [], 'plain'),
+    # the trip count is read from the argument `k`, which a body may reassign
+    ('rangek', 'for {X} in range(k + 3):', [], 'X', [], 'range'),
 ]
-HEADERS_QUICK = ('xs', 'range', 'zip', 'enum', 'enumzip', 'zipw', 'enumzipw', 'zip_', 'enumi_', 'zipnest')
+HEADERS_QUICK = ('xs', 'range', 'zip', 'enum', 'enumzip', 'zipw', 'enumzipw', 'zip_', 'enumi_', 'zipnest', 'rangek')
 HEADERS_MAIN = ('xs', 'zip', 'enum', 'enumzip', 'range', 'zipw')
 HEADERS_MAIN_Q = ('xs', 'zip', 'enum', 'enumzip')
 
@@ -178,6 +180,13 @@ def _body_pool(lst: str):
         ('idx', ['{A} = {A} + {I} * {X}'], 'I', ()),
         ('yy', ['{C} = 2 * {C} + {Y}'], 'Y', ()),
         ('mut2', ['ys[len(ys) - 1] = {X} + 1'], '', ('mutate',)),
+        # rebinds the second source of a zip to a new list of the same length
+        ('rebind2', ['{C} = 2 * {C} + {X}', 'ys = [{V} + 1 for {V} in ys]'], '', ('rebind-source',)),
+        # reassign the argument `k` -- the variable split factor (snapshot once before the loop) and the
+        # trip count of the `rangek` header -- after using the element, so a skipped or repeated element shows
+        ('kset', ['{A} = 2 * {A} + {X}', 'k = 1'], '', ('write-factor',)),
+        ('kinc', ['{A} = 2 * {A} + {X}', 'k = k + 1'], '', ('write-factor',)),
+        ('kdec', ['{A} = 2 * {A} + {X}', 'if k > 1:', '    k = k - 1'], '', ('write-factor',)),
         ('muti', [f'{last} = {last} + {{I}}'], 'I', ('mutate',)),
         ('tmp', ['{T} = {X} * 2', '{A} = {A} + {T}'], '', ()),
         ('nest', ['for {W} in ys:', '    {C} = 2 * {C} + {W}'], '', ('nested',)),
@@ -240,9 +249,14 @@ def for_programs():
                 mut_src = 'y'
         if mut_src == 'n' and 'rebind' in seq_tags and (('{Z}' if key.startswith('loc') else 'xs') in srcs):
             mut_src = 'rebind'
+        if mut_src == 'n' and 'rebind2' in seq_tags and 'ys' in srcs:
+            mut_src = 'rebind'
+        if mut_src == 'n' and 'write-factor' in feats:
+            mut_src = 'factor'
         tags = {'family': 'F', 'header': key, 'iter': kind, 'body': '+'.join(seq_tags), 'scheme': scheme,
                 'ctx': wrap or 'ambient', 'mut': mut_src, 'site': 'stmt',
-                'features': '+'.join(sorted(feats)) or '-'}
+                'features': '+'.join(sorted(feats)) or '-',
+                'usesk': 'y' if ('write-factor' in feats or key == 'rangek') else 'n'}
         out.append((Prog('F', src, tags), core))
 
     def seqs(pooltags, maxlen, binds):
@@ -282,6 +296,8 @@ def for_programs():
             for scheme, wrap in combos:
                 if ((tag,), scheme, wrap) in done:
                     continue
+                if 'write-factor' in pool[tag][3] and wrap is not None:
+                    continue      # a rounded `k - 1` could reach 0: the factor must stay >= 1
                 if 'nested' in pool[tag][3] and ((scheme, wrap) in (('loop', 'p2'), ('iter', 'fix2'), ('plain', None))
                                                  or (is_static and scheme != 'loop')):
                     continue      # quadratic-cost bodies: fewer scheme x context combinations
@@ -292,6 +308,10 @@ def for_programs():
                                      # numbered names: bodies that make the rewrites mint many temporaries
                                      or (main and (scheme, wrap) == ('num', None) and
                                          tag in ('acc', 'nest', 'nestsame', 'tmp', 'while')))
+                if key == 'rangek':
+                    core = (scheme, wrap) == ('loop', None) and tag in ('acc', 'kset', 'kinc', 'kdec')
+                elif tag in ('kset', 'kinc', 'kdec', 'rebind2') and not main:
+                    core = False
                 emit(hdr, (tag,), pool, scheme, wrap, core)
                 done.add(((tag,), scheme, wrap))
         # (3) all sequences of length 2 over the whole pool, main headers and one static one
@@ -330,7 +350,7 @@ WHILE_CONDS = [
 def while_programs():
     full = True
     out = []
-    plist = [p for p in _body_pool('xs') if p[0] not in ('idx', 'yy', 'muti', 'zcomp', 'shcomp', 'nestrng', 'nestlit')]
+    plist = [p for p in _body_pool('xs') if p[0] not in ('idx', 'yy', 'muti', 'zcomp', 'shcomp', 'nestrng', 'nestlit', 'rebind2', 'kset', 'kinc', 'kdec')]
     pool = {p[0]: p for p in plist}
     # the nested `while` of the pool shares the counter name with the outer loop: give it its own
     pool['while'] = ('while', ['{W} = 0', 'while {W} < {X}:', '    {A} = {A} + {W}', '    with fp.INTEGER:',
